@@ -126,6 +126,7 @@ type vDB struct {
 	storage.MintDB
 	n     int
 	fail  map[int]bool
+	crash map[int]bool
 	calls []string
 	onCall func(n int, name string)
 }
@@ -136,10 +137,30 @@ func (d *vDB) hit(name string) error {
 	if d.onCall != nil {
 		d.onCall(d.n, name)
 	}
+	if d.crash[d.n] {
+		panic(vCrash{name})
+	}
 	if d.fail[d.n] {
 		return errors.New("verif: injected storage error")
 	}
 	return nil
+}
+
+// vCrash is the panic value used to simulate the death of the process right
+// before a store call.
+type vCrash struct{ at string }
+
+func (d *vDB) SaveKeyset(k storage.DBKeyset) error {
+	if err := d.hit("SaveKeyset"); err != nil {
+		return err
+	}
+	return d.MintDB.SaveKeyset(k)
+}
+func (d *vDB) UpdateKeysetActive(id string, a bool) error {
+	if err := d.hit("UpdateKeysetActive"); err != nil {
+		return err
+	}
+	return d.MintDB.UpdateKeysetActive(id, a)
 }
 
 func (d *vDB) SaveProofs(p cashu.Proofs) error {
